@@ -11,10 +11,12 @@ open CB CB.Cmp
     TRUNCATED to the receiver's limb count. -/
 def rhsFor (self rhs : List Nat) : List Nat := (pad self.length rhs).take self.length
 
-/-- `BoxedUint::adc_assign` (release semantics: the precision precondition is only a `debug_assert`). -/
+/-- the loop of `BoxedUint::adc_assign` (after its `assert!` on the precisions) -/
 def adcAssign (self rhs : List Nat) (c : Nat) : List Nat × Nat := uadc self (rhsFor self rhs) c
-/-- `BoxedUint::sbb_assign`. -/
+/-- the loop of `BoxedUint::sbb_assign`. -/
 def sbbAssign (self rhs : List Nat) (bw : Nat) : List Nat × Nat := usbb self (rhsFor self rhs) bw
+/-- `assert!(self.bits_precision() >= rhs.len() * Limb::BITS)`: `true` = the call panics -/
+def assignPanics (self rhs : List Nat) : Bool := decide (self.length < rhs.length)
 
 /-- `&a + &b` on boxed values: `checked_add(..).expect(..)`; `none` = panic. -/
 def boxedOpAdd (a b : List Nat) : Option (List Nat) :=
@@ -23,9 +25,16 @@ def boxedOpSub (a b : List Nat) : Option (List Nat) :=
   if (bsbb a b 0).2 = 0 then some (bsbb a b 0).1 else none
 /-- `a += &b`: `adc_assign` then `assert carry == 0`. -/
 def boxedAddAssign (a b : List Nat) : Option (List Nat) :=
-  if (adcAssign a b 0).2 = 0 then some (adcAssign a b 0).1 else none
+  if assignPanics a b then none
+  else if (adcAssign a b 0).2 = 0 then some (adcAssign a b 0).1 else none
 def boxedSubAssign (a b : List Nat) : Option (List Nat) :=
-  if (sbbAssign a b 0).2 = 0 then some (sbbAssign a b 0).1 else none
+  if assignPanics a b then none
+  else if (sbbAssign a b 0).2 = 0 then some (sbbAssign a b 0).1 else none
+/-- `Wrapping<BoxedUint> += / -=`: `adc_assign` / `sbb_assign` without an overflow check; `none` = panic -/
+def boxedWrappingAddAssign (a b : List Nat) : Option (List Nat) :=
+  if assignPanics a b then none else some (adcAssign a b 0).1
+def boxedWrappingSubAssign (a b : List Nat) : Option (List Nat) :=
+  if assignPanics a b then none else some (sbbAssign a b 0).1
 
 /-- `Checked<T>` addition / subtraction: `none` is sticky. -/
 def checkedAddO (a b : Option (List Nat)) : Option (List Nat) :=
